@@ -387,6 +387,29 @@ def main():
                     undecided.append(f"group {crate}/{gi}: no results (build error or crash)")
                 results.update(r)
 
+        # Verus lemma files (spec-level arithmetic over mathematical integers; they never read /repo and a
+        # failure there is never a violation: exit 2)
+        verus_rows = []
+        for vf in pc.get("verus", []) if not args.only else []:
+            t0 = time.time()
+            try:
+                pv = subprocess.run(["verus", os.path.join(VERIF, vf), "--output-json"], stdout=subprocess.PIPE, stderr=subprocess.DEVNULL,
+                                    text=True, timeout=600, cwd=scratch)
+                jd = json.loads(pv.stdout[pv.stdout.index("{"):])
+                vr = jd.get("verification-results", {})
+                okv = bool(vr.get("success")) and vr.get("errors", 1) == 0 and vr.get("verified", 0) > 0
+            except Exception as e:  # noqa: BLE001
+                vr, okv = {"error": str(e)}, False
+            cmds.append(f"verus {vf} --output-json")
+            verus_rows.append({"harness": f"verus:{vf}", "unit": "verus", "crate": "-", "kind": "lemma", "tier": "quick", "class": "P", "bound": "",
+                               "contract_of": "", "expect_fail": False, "status": "Success" if okv else "Failure",
+                               "duration_s": round(time.time() - t0, 2), "checks_total": vr.get("verified", 0), "checks_success": vr.get("verified", 0) if okv else 0,
+                               "checks_unreachable": 0, "undetermined": 0, "covers_total": 0, "covers_satisfied": 0, "solver_s": None, "symex_s": None, "vccs": vr.get("verified", 0),
+                               "outcome": "discharged" if okv else "undecided", "backend": "Verus 0.2026.09.13 / Z3"})
+            log(f"[{prop}] verus {vf}: {vr}")
+            if not okv:
+                undecided.append(f"verus lemma file {vf} did not verify")
+
         violations = []   # (harness, result)
         known = []
         rows = []
@@ -440,6 +463,7 @@ def main():
                     row["outcome"] = "discharged"
             rows.append(row)
 
+        rows += verus_rows
         # phase 2: replay files
         vio_lines = []
         os.makedirs(os.path.join(VERIF, "replays", prop), exist_ok=True)
